@@ -6,11 +6,11 @@ from props import readcheck as RC
 ID = "C20"
 RULE = ("each case is a group: the blocking iterator over the whole input, and TagIteratorAsync (direct next() calls and the into_stream() "
         "adapter, driven by futures::executor::block_on over a scripted AsyncRead) under a poll schedule: everything in one read, exhaustive "
-        "partitions of small inputs, random partitions, few-byte reads, inputs above 64 KiB, random buffered sets.  Oracle: identical items and "
+        "partitions of small inputs, random partitions, few-byte reads, inputs above 64 KiB, random buffered sets; a third of the schedules contain polls that answer Poll::Pending (woken at once, polled again).  Oracle: identical items and "
         "offsets, ending once.  Schedules on which a call finds the inner iterator short of data before the source is exhausted ('starved', decided "
         "by props/readcheck.py starved from the schedule and the blocking parse alone) are the known finding D15: there only the property oracle is "
         "applied and a difference is reported as KNOWN-FINDING.  non-trivial = blocking run emits >= 3 items; distinct = distinct group")
-TRUSTED = TRUSTED_BASE + ["futures::executor::block_on / AsyncReadExt::read / stream::unfold (the scripted source never returns Pending)"]
+TRUSTED = TRUSTED_BASE + ["futures::executor::block_on / AsyncReadExt::read / stream::unfold (the scripted source returns Pending only at the w steps of a schedule, after waking the task; the model drops those steps)"]
 ASSUMPTIONS = ASSUME_BASE
 EXHAUSTIVE = {"quick": "all read partitions of 2 inputs of <= 7 bytes", "thorough": "all read partitions of 8 inputs of <= 10 bytes"}
 
@@ -37,17 +37,23 @@ def generate(rng, tier):
             continue_ok = True
         hexd = data.hex() or "-"
         cfgb = E.cfg_str(buffered=buf)
+        # a third of the schedules also contain reads that are not ready: the source answers Poll::Pending once (token w) and
+        # is polled again; nothing is delivered by such a poll, so the items must be those of the schedule without the w steps
+        ascr = list(scr)
+        if k % 3 == 1:
+            for _ in range(rng.randint(1, 4)):
+                ascr.insert(rng.randint(0, len(ascr)), "w")
         lines = ["R %s %s - %s N" % (sp.s(), cfgb, hexd),
-                 "A %s %s %s %s d" % (sp.s(), cfgb, E.script_str(scr), hexd),
-                 "A %s %s %s %s s" % (sp.s(), cfgb, E.script_str(scr), hexd)]
-        cases.append(Case(lines, kind + ":" + mode if False else kind, {"script": scr, "buffered": bool(buf), "mode": mode}))
+                 "A %s %s %s %s d" % (sp.s(), cfgb, E.script_str(ascr), hexd),
+                 "A %s %s %s %s s" % (sp.s(), cfgb, E.script_str(ascr), hexd)]
+        cases.append(Case(lines, kind + ":" + mode if False else kind, {"script": ascr, "buffered": bool(buf), "mode": mode, "pending": "w" in ascr}))
     # inputs well above 2 x 64 KiB delivered in 64 KiB reads (not starved: delivery runs ahead of parsing)
     sp = E.base_spec()
     for k in range(6 if thorough else 2):
         blocks = [E.Node(("b", E.CHILD, bytes([rng.getrandbits(8)]) * rng.choice([700, 1000, 1500]))) for _ in range(rng.choice([150, 300]))]
         nodes = [E.Node(("m", E.ROOT), rng.choice(["u", None]), [E.Node(("m", E.PARENT), rng.choice([None, "u"]), blocks), E.Node(("u", E.INT, 7))])]
         data = E.encode(nodes)
-        for scr in ([], [65536, 65536, 65536], [70000]):
+        for scr in ([], [65536, 65536, 65536], [70000], ["w", 65536, "w", "w", 65536]):
             lines = ["R %s %s - %s N" % (sp.s(), E.cfg_str(), data.hex()), "A %s %s %s %s d" % (sp.s(), E.cfg_str(), E.script_str(scr), data.hex()),
                      "A %s %s %s %s s" % (sp.s(), E.cfg_str(), E.script_str(scr), data.hex())]
             cases.append(Case(lines, "huge", {"script": scr, "buffered": False, "mode": "huge"}))
